@@ -152,13 +152,16 @@ static void fuzzy_scenario(int oi, int mode, int const *sets, int const *fdbs, i
     ++n_ctl;
 }
 
-static void neuro_scenario(int mode, int const *sets, int const *fdbs, int n)
+static void neuro_scenario(int mode, int wset, int const *sets, int const *fdbs, int n)
 {
     a_pid_neuro ctx, fresh;
     memset(&ctx, 0, sizeof(ctx));
     ctx.pid.summax = 6; ctx.pid.summin = -6; ctx.pid.outmax = 10; ctx.pid.outmin = -10;
     a_pid_neuro_set_kpid(&ctx, 4, 1, 0.5, 0.25);
-    a_pid_neuro_set_wpid(&ctx, 0.5, 0.25, 0.125);
+    /* weight sets: ordinary, all zero ("learn from scratch": the normalisation divides by |wp|+|wi|+|wd|), mixed signs */
+    if (wset == 0) { a_pid_neuro_set_wpid(&ctx, 0.5, 0.25, 0.125); }
+    else if (wset == 1) { a_pid_neuro_set_wpid(&ctx, 0, 0, 0); }
+    else { a_pid_neuro_set_wpid(&ctx, -0.5, 0.25, 0); }
     a_pid_neuro_zero(&ctx);
     double outs[16], outs2[16], outs3[16], st[16][3];
     for (int i = 0; i < n; ++i)
@@ -177,7 +180,7 @@ static void neuro_scenario(int mode, int const *sets, int const *fdbs, int n)
         outs3[i] = mode == 0 ? a_pid_neuro_run(&fresh, sets[i] / 2.0, fdbs[i] / 2.0) : a_pid_neuro_inc(&fresh, sets[i] / 2.0, fdbs[i] / 2.0);
     }
     FILE *f = out();
-    fprintf(f, "{\"f\":\"npid\",\"mode\":%d,\"lim\":[-10,10],\"outs\":", mode);
+    fprintf(f, "{\"f\":\"npid\",\"mode\":%d,\"wset\":%d,\"lim\":[-10,10],\"outs\":", mode, wset);
     put_ords(f, outs, n);
     fputs(",\"weights\":[", f);
     for (int i = 0; i < n; ++i)
@@ -292,7 +295,7 @@ int main(int argc, char **argv)
     }
     for (int mode = 0; mode < 2; ++mode)
     {
-        for (int c = 0; c < 6; ++c) { neuro_scenario(mode, fixed_sets[c], fixed_fdbs[c], 4); }
+        for (int c = 0; c < 6; ++c) { for (int w = 0; w < 3; ++w) { neuro_scenario(mode, w, fixed_sets[c], fixed_fdbs[c], 4); } }
         for (int c = 0; c < 30; ++c)
         {
             int st[8], fb[8];
@@ -302,7 +305,7 @@ int main(int argc, char **argv)
                 st[i] = (int)(s % 13) - 6;
                 fb[i] = (int)((s >> 20) % 9) - 4;
             }
-            neuro_scenario(mode, st, fb, 8);
+            neuro_scenario(mode, c % 3, st, fb, 8);
         }
     }
     for (int i = 0; i < nb; ++i) { fclose(fo[i]); }
